@@ -158,7 +158,10 @@ fn point(ctx: &Ctx, c: &Case, obs: &mut Obs) -> PropResult {
                         }
                         Comp::Hue => {
                             let d = signed_diff(b[i], a[i]);
-                            if (d.abs() - 180.0).abs() > 1e-6 {
+                            // the two arcs are equally long up to the rounding of the stored angles' difference
+                            // (f32 hues thousands of degrees away have an ulp of 5e-4 deg): direction undefined there
+                            let antipodal_band = 1e-6f64.max(4.0 * ulp(a[i].abs().max(b[i].abs()).max(360.0)));
+                            if (d.abs() - 180.0).abs() > antipodal_band {
                                 obs.class(if (b[i] - a[i]).abs() > 180.0 { "mix: raw hue difference > 180 (wraps)" } else { "mix: raw hue difference <= 180" });
                                 let t = f.clamp(0.0, 1.0);
                                 let moved = signed_diff(v0[i], a[i]);
